@@ -58,7 +58,9 @@ func countVerbs(format string) int {
 func init() {
 	registerHook("C07", func(c *checkCtx) {
 		c.useLedger = true
-		c.strictNew = true
+		// (new undischarged obligations are reported when the solvers refute them in a function the ledger had entirely proved,
+		// like in the safety sweep; a blanket "anything new must discharge" alarmed on harmless refactorings)
+		c.strictNew = false
 		c.provedLedger = loadLedger("C07", "proved")
 		c.frontierLedger = loadLedger("C07", "frontier")
 		sites := 0
